@@ -100,6 +100,16 @@ void BiList::PushAll(BiList&& other) noexcept {
   _head.prev->next = &_head;
 }
 
+#ifdef YACLIB_VERIF
+std::size_t BiList::Size() const noexcept {
+  std::size_t n = 0;
+  for (auto* node = _head.next; node != &_head; node = node->next) {
+    ++n;
+  }
+  return n;
+}
+#endif
+
 bool Node::Erase() {
   if (this->next == nullptr || this->prev == nullptr) {
     return false;
